@@ -90,6 +90,10 @@ def default_jobs(tier):
     return max(1, min(8, n // 2))
 
 
+def optional_covers(name):
+    return HARNESSES.get(name, {}).get("optional_covers", [])
+
+
 def needs_native_confirmation(name, desc):
     """Memory-safety verdicts of CBMC's pointer checks (use after free, double free, out of bounds)
     are not observable in a native run; for harnesses whose oracle they are (C16) they are reported
@@ -103,12 +107,136 @@ def needs_native_confirmation(name, desc):
 # ---------------------------------------------------------------------------------------------
 # harness table
 
-H("h_s1_mpmc_n2_o2_111", "scen_basic", "C01", ["C01", "C02", "C03", "C06"], "quick",
-  "mpmc, multi-writer: consumer try_recv preempted at every shared access by two producers' try_send",
+T = "scen_traffic"
+TR_ALL = ["C01", "C02", "C03", "C06", "C18"]
+OPT_PREFIX = ["prefix wrapped or advanced the ring"]
+
+H("t1_mp_n2_o0", T, "C01", TR_ALL + ["C12"], "quick",
+  "mpmc, two producers (multi-writer) + consumer; producer 0's try_send preempted everywhere by producer 1's try_send and the consumer's try_recv",
+  "N=2, 1 op per actor, depth 1, budget 2", optional_covers=OPT_PREFIX)
+H("t1_mp_n2_o2", T, "C02", TR_ALL, "quick",
+  "mpmc, two producers + consumer; the consumer's try_recv preempted everywhere by both producers' try_send",
+  "N=2, 1 op per actor, depth 1, budget 2", optional_covers=OPT_PREFIX)
+H("t1_bc_n2_o0", T, "C02", TR_ALL + ["C12"], "quick",
+  "broadcast, two producers + consumer; producer 0's try_send preempted everywhere",
+  "N=2, 1 op per actor, depth 1, budget 2", optional_covers=OPT_PREFIX)
+H("t1_mp_n1_o0", T, "C03", TR_ALL, "quick",
+  "mpmc N=1, two producers + consumer after a symbolic prefix that may wrap the ring",
+  "N=1, prefix <=1 send/recv, 1 op per actor, depth 1, budget 2")
+H("t2_mp_n2_o1", T, "C01", TR_ALL, "quick",
+  "mpmc, one producer + two consumers sharing the stream; consumer A's try_recv (speculative read + CAS) preempted everywhere by consumer B's try_recv and the producer",
+  "N=2, prefix <=2 sends <=1 recv, 1 op per actor, depth 1, budget 2")
+H("t2_bc_n2_o1", T, "C06", TR_ALL, "quick",
+  "broadcast, one producer + two consumers sharing a stream (pin/unpin path); consumer A preempted everywhere",
+  "N=2, prefix <=2 sends <=1 recv, 1 op per actor, depth 1, budget 2")
+H("t2_bc_n2_o0", T, "C03", TR_ALL, "quick",
+  "broadcast, producer's try_send preempted everywhere by two consumers of one shared stream",
+  "N=2, prefix <=2 sends <=1 recv, 1 op per actor, depth 1, budget 2")
+H("t3_bc_n2_o0", T, "C03", TR_ALL, "quick",
+  "broadcast, two streams; producer's try_send (tail recomputation over both streams) preempted everywhere by both consumers",
+  "N=2, prefix <=2 sends <=1 recv per stream, depth 1, budget 2")
+H("t3_bc_n1_o1", T, "C02", TR_ALL, "quick",
+  "broadcast N=1, two streams; stream 0's consumer preempted by the producer and stream 1's consumer",
+  "N=1, prefix <=1 send/recv, depth 1, budget 2")
+H("t4_mp_n1_o0", T, "C06", TR_ALL, "quick",
+  "mpmc N=1 single writer / single reader fast paths; producer's two sends preempted by the consumer's two receives",
+  "N=1, prefix <=1 send/recv, 2 ops per actor, depth 1, budget 2")
+H("t4_bc_n2_o1", T, "C01", TR_ALL, "quick",
+  "broadcast single writer / single reader; consumer's two receives preempted by the producer's two sends",
+  "N=2, prefix <=2 sends/recvs, 2 ops per actor, depth 1, budget 2")
+H("t5_bc_n2_o1", T, "C01", TR_ALL + ["C04"], "quick",
+  "broadcast in-place viewer (into_single) preempted everywhere, including inside the view closure, by the producer",
+  "N=2, prefix <=2 sends <=1 view, depth 1, budget 2")
+H("t5_mp_n1_o0", T, "C03", TR_ALL + ["C04"], "quick",
+  "mpmc N=1 producer preempted everywhere by an in-place viewer",
+  "N=1, prefix <=1 send/view, depth 1, budget 2")
+
+# ---- instrumented payload (C04 / C05)
+H("c04_bc_shared_inclone", T, "C04", ["C04", "C05", "C01", "C03", "C06"], "quick",
+  "broadcast shared stream, instrumented payload: consumer A is in the middle of clone(); up to 3 operations of its sibling consumer and of the producer (which wraps the ring) run there",
+  "N=2, prefix <=2 sends <=1 recv, injection only inside Clone, up to 3 ops at that site, teardown checked")
+H("c04_bc_streams_inclone", T, "C04", ["C04", "C05", "C01", "C03", "C06"], "quick",
+  "broadcast two streams, instrumented payload: stream 0's consumer is in the middle of clone(); stream 1's consumer and the producer run there",
+  "N=2, prefix <=2 sends <=1 recv, injection only inside Clone, up to 3 ops at that site, teardown checked")
+H("c04_bc_view_inview", T, "C04", ["C04", "C05", "C03"], "quick",
+  "broadcast in-place viewer, instrumented payload: the producer tries to wrap the ring while the view closure runs",
+  "N=2, injection only inside the view closure, up to 3 sends there, teardown checked")
+H("c04_mp_view_inview", T, "C05", ["C04", "C05", "C03"], "quick",
+  "mpmc in-place viewer (value dropped in place after the view), instrumented payload, producer wraps the ring inside the closure",
+  "N=2, injection only inside the view closure, up to 3 sends there, teardown checked")
+H("c04_bc_shared_all", T, "C04", ["C04", "C05", "C01", "C06"], "thorough",
+  "broadcast shared stream, instrumented payload, all preemption sites, teardown checked",
   "N=2, 1 op per actor, depth 1, budget 2")
-H("h_s1_mpmc_n2_o0_111", "scen_basic", "C01", ["C01", "C02", "C03", "C06"], "thorough",
-  "mpmc, multi-writer: producer try_send preempted at every shared access by the other producer's try_send and the consumer's try_recv",
+H("c05_mp_shared_all", T, "C05", ["C05", "C04", "C01", "C06"], "quick",
+  "mpmc shared stream (speculative bitwise read + CAS), instrumented payload, all preemption sites, teardown checked",
   "N=2, 1 op per actor, depth 1, budget 2")
-H("h_s1_mpmc_n2_o0_111_b1", "scen_basic", "C01", ["C01", "C02", "C03", "C06"], "quick",
-  "mpmc, multi-writer: producer try_send preempted once by the other producer's try_send or the consumer's try_recv",
-  "N=2, 1 op per actor, depth 1, budget 1")
+
+# ---- life cycle
+L = "scen_life"
+H("c07_mp_one_o1", L, "C07", ["C07", "C01", "C02"], "quick",
+  "mpmc: consumer's three try_recv preempted everywhere by the last sender's final send and drop", "N=2, prefix <=2/<=2, budget 2")
+H("c07_bc_one_o1", L, "C07", ["C07", "C01", "C02"], "thorough",
+  "broadcast: consumer's three try_recv preempted everywhere by the last sender's final send and drop", "N=2, prefix <=2/<=2, budget 2")
+H("c07_mp_one_o0", L, "C07", ["C07", "C01"], "thorough",
+  "mpmc: last sender's send and drop preempted everywhere by the consumer's receives", "N=2, budget 2")
+H("c07_mp_two_o2", L, "C07", ["C07", "C01", "C12"], "thorough",
+  "mpmc, two senders each sending once and dropping, injected into the consumer's receives", "N=2, budget 3")
+H("c07_bc_two_o0", L, "C07", ["C07", "C01", "C12"], "thorough",
+  "broadcast, two senders; sender 0's send and drop preempted by sender 1 and the consumer", "N=2, budget 2")
+H("c07_bc_view_o1", L, "C07", ["C07", "C01"], "quick",
+  "broadcast in-place viewer: try_recv_view preempted everywhere by the last sender's final send and drop", "N=2, budget 2")
+H("c07_mp_view_o1", L, "C07", ["C07", "C01"], "quick",
+  "mpmc in-place viewer: try_recv_view preempted everywhere by the last sender's final send and drop", "N=2, budget 2")
+ADDRULES = queue_rules(retry=4, streams=3, extra=[(r'ReadCursor::add_stream', 4), (r'ReadCursor::remove_reader', 4), (r'Vec.*clone|to_vec|retain|extend|spec_', 5)])
+H("c10_bc_sole_o1", L, "C10", ["C10", "C01", "C02", "C03", "C06"], "quick",
+  "broadcast: add_stream (then a receive) on the sole handle of the parent stream, preempted everywhere by the producer's sends",
+  "N=2, prefix <=2/<=2, budget 2", rules=ADDRULES)
+H("c10_bc_sole_o0", L, "C10", ["C10", "C03", "C06"], "quick",
+  "broadcast: producer's try_send (tail recomputation) preempted everywhere by add_stream and a parent receive",
+  "N=2, prefix <=2/<=2, budget 2, up to 2 ops per site", rules=ADDRULES)
+H("c10_bc_sib_o1", L, "C10", ["C10", "C01", "C03", "C06"], "thorough",
+  "broadcast: add_stream on one of two handles of the parent stream, preempted by the sibling's receive and the producer's sends",
+  "N=2, budget 3, up to 3 ops per site", rules=ADDRULES)
+H("c11_bc_drop_last_o1", L, "C11", ["C11", "C03", "C06"], "quick",
+  "broadcast two streams: drop of the last handle of the slowest stream preempted everywhere by the producer's sends and the other stream's receive",
+  "N=2, prefix fills the ring, budget 2", rules=ADDRULES)
+H("c11_bc_drop_last_o0", L, "C11", ["C11", "C03", "C06"], "thorough",
+  "broadcast two streams: producer retrying on a full queue preempted everywhere by the removal of the blocking stream",
+  "N=2, budget 2", rules=ADDRULES)
+H("c11_bc_unsub_last_o1", L, "C11", ["C11", "C03"], "quick",
+  "broadcast: unsubscribe() of the last handle of a stream (must report true), preempted everywhere", "N=2, budget 2", rules=ADDRULES)
+H("c11_bc_unsub_nonlast_o1", L, "C11", ["C11", "C01", "C03", "C06"], "quick",
+  "broadcast: unsubscribe() of a non-last handle (must report false; the stream keeps values and backpressure)", "N=2, budget 2", rules=ADDRULES)
+H("c12_mp_senders_o0", L, "C12", ["C12", "C01", "C02", "C03", "C06"], "quick",
+  "mpmc: senders 1->2->1: send in single-writer state, clone, send, while the clone sends and is dropped and the consumer receives",
+  "N=2, prefix <=1/<=1, budget 2")
+H("c12_bc_senders_o0", L, "C12", ["C12", "C01", "C02", "C03", "C06"], "thorough",
+  "broadcast: senders 1->2->1 during traffic", "N=2, budget 2")
+H("c12_mp_consumers_o1", L, "C12", ["C12", "C01", "C02", "C03", "C06"], "quick",
+  "mpmc: consumers of one stream 1->2->1 (receive, clone, receive; clone receives and is dropped) during traffic",
+  "N=2, prefix <=2/<=1, budget 2")
+H("c12_bc_consumers_o1", L, "C12", ["C12", "C01", "C02", "C03", "C06"], "thorough",
+  "broadcast: consumers of one stream 1->2->1 during traffic", "N=2, budget 2")
+for n, w in (("c13_mp_one", "mpmc, one receiver handle"), ("c13_mp_two_handles", "mpmc, two handles of one stream"),
+             ("c13_bc_two_streams", "broadcast, two streams"), ("c13_bc_two_handles", "broadcast N=1, two handles of one stream")):
+    H(n, L, "C13", ["C13"], "quick",
+      w + ": every receiver dropped (order, queued value, second sender symbolic), then try_send on every sender",
+      "sequential; symbolic: queued value yes/no, second sender yes/no, drop order", rules=ADDRULES)
+
+# ---- blocking receive
+W = "scen_wait"
+WRULES = queue_rules(retry=4, extra=[(r'BlockingWait.*::wait', 4), (r'BusyWait.*::wait', 12), (r'YieldingWait.*::wait', 8),
+                                      (r'InnerRecv.*::recv', 4), (r'cv_wait_impl', 7)])
+for n, w in (("c08_mp_blk00_send", "mpmc BlockingWait(0,0): blocked recv vs one send"),
+             ("c08_bc_blk00_senddrop", "broadcast BlockingWait(0,0): blocked recv vs send + drop of the last sender"),
+             ("c08_mp_blk00_drop", "mpmc BlockingWait(0,0): blocked recv vs drop of the last sender"),
+             ("c08_bc_blk00_sibling", "broadcast BlockingWait(0,0): blocked recv, two sends, a sibling consumer that takes one value"),
+             ("c08_mp_blk11_send", "mpmc BlockingWait(1,1): blocked recv vs one send"),
+             ("c08_bc_blk20_view", "broadcast BlockingWait(2,0): blocked recv_view vs one send"),
+             ("c08_mp_busy_send", "mpmc BusyWait: spinning recv vs one send"),
+             ("c08_mp_busy_drop", "mpmc BusyWait: spinning recv vs drop of the last sender"),
+             ("c08_bc_yield11_senddrop", "broadcast YieldingWait(1,1): recv vs send + drop"),
+             ("c08_mp_yield01_sibling", "mpmc YieldingWait(0,1): recv, two sends, sibling consumer")):
+    H(n, W, "C08", ["C08", "C07"], "quick" if n in ("c08_mp_blk00_send", "c08_bc_blk00_senddrop", "c08_mp_blk00_drop", "c08_mp_busy_send", "c08_bc_yield11_senddrop") else "thorough",
+      w + "; sender/sibling operations run at every preemption point of the waiter and inside the condvar wait; stuck detector",
+      "N=2, budget 3, up to 2 ops per site", rules=WRULES)
